@@ -106,7 +106,7 @@ package ast
 //@   requires prog != nil && forall(k, 0, len(prog.Statements), prog.Statements[k] != nil && refof(prog.Statements[k]) != 0)
 //@   requires forall(i, 0, len(p.Components), forall(j, 0, len(p.Components), i != j ==> p.Components[i] != p.Components[j]))
 //@   requires forall(i, 0, len(p.Components), p.Components[i].Block != prog)
-//@   goal independent: result == nil ==> forall(i, 0, len(p.Components), forall(j, 0, len(p.Components), i != j && p.Components[i].Block == prog ==> p.Components[j].Block != prog))
-//@   goal others-untouched: forall(i, 0, len(p.Components), p.Components[i].Block == prog || p.Components[i].Block == old(p.Components[i].Block))
+//@   ensures independent: result == nil ==> forall(i, 0, len(p.Components), forall(j, 0, len(p.Components), i != j && p.Components[i].Block == prog ==> p.Components[j].Block != prog))
+//@   ensures others-untouched: forall(i, 0, len(p.Components), p.Components[i].Block == prog || p.Components[i].Block == old(p.Components[i].Block))
 //@   modifies anyfield(ComponentStmt.Block), anyfield(SlotStmt.Body)
 //@   loop 0: invariant forall(i, 0, len(p.Components), p.Components[i].Block == old(p.Components[i].Block) || (i <= rangeindex && p.Components[i].Block == prog))
